@@ -140,6 +140,47 @@ func (c *Ctx) c10Jitter() {
 	c.configWriters("R10.2", "TimeToLive", "ExpirationJitter")
 }
 
+// traitCtorsInit: when the defaulting code lives in Trait.init, both exported constructors run it — on the instance they return,
+// with the configuration and the option callbacks they were given (a constructor that skips it returns a Trait with a zero
+// Config: no defaults, no callbacks, no janitor).
+func (c *Ctx) traitCtorsInit(rule string) {
+	r := c.R
+	if fd, _ := c.funcDecl("Trait.init"); fd == nil {
+		return
+	}
+	info := c.Pkg.TypesInfo
+	for _, name := range []string{"NewTrait", "NewTraitOf"} {
+		fd, fn := c.funcDecl(name)
+		if fd == nil || fn == nil {
+			r.Unknown(rule, name+":init", "does not resolve")
+			continue
+		}
+		sig := fn.Type().(*types.Signature)
+		ok := false
+		ast.Inspect(fd.Body, func(x ast.Node) bool {
+			call, isCall := x.(*ast.CallExpr)
+			if !isCall {
+				return true
+			}
+			callee, _ := typeutil.Callee(info, call).(*types.Func)
+			if callee == nil || strings.TrimPrefix(pw.FuncName(callee), "cache.") != "Trait.init" || len(call.Args) != 2 || !call.Ellipsis.IsValid() {
+				return true
+			}
+			a0, _ := ast.Unparen(call.Args[0]).(*ast.Ident)
+			a1, _ := ast.Unparen(call.Args[1]).(*ast.Ident)
+			if a0 != nil && a1 != nil && sig.Params().Len() == 2 && info.ObjectOf(a0) == sig.Params().At(0) && info.ObjectOf(a1) == sig.Params().At(1) {
+				ok = true
+			}
+			return true
+		})
+		if ok {
+			r.OK(rule, name+":init", "runs Trait.init with the given configuration and options")
+		} else {
+			r.Bad(rule, name, "constructor-skips-init", c.Pos(fd.Pos()), "the constructor does not run Trait.init with the configuration and options it was given: the returned Trait has no defaults, no callbacks and no janitor", nil)
+		}
+	}
+}
+
 // defaultsRule: in Trait.init (NewTrait) each listed config field is replaced by its documented default exactly when 0.
 func (c *Ctx) defaultsRule(rule string, want map[string]*big.Rat) {
 	name := "Trait.init"
@@ -147,6 +188,7 @@ func (c *Ctx) defaultsRule(rule string, want map[string]*big.Rat) {
 		name = "NewTrait"
 	}
 	c.ctorDefaults(rule, name, "Config", want)
+	c.traitCtorsInit(rule)
 }
 
 // ctorDefaults: in constructor name, each field of want gets its documented default exactly when it is zero, is otherwise left as
